@@ -106,7 +106,10 @@ fn main() {
         "c03" => integrity::c03_cases(&mut rng, &tier, &mut out),
         "c03-lengths" => integrity::c03_unaltered_sweep(&mut rng, &tier, &mut out),
         "c04" => integrity::c04_cases(&mut rng, &tier, &mut out),
-        "c07" => confid::c07_cases(&mut rng, &tier, &mut out),
+        "c07" => {
+            confid::c07_cases(&mut rng, &tier, &mut out);
+            confid::c07_keyring_cases(&mut rng, &tier, &mut out);
+        }
         "c07-child" => confid::child(),
         #[cfg(feature = "scaled")]
         "c07-model" => confid::c07_model_cases(&mut rng, &tier, &mut out),
